@@ -55,6 +55,12 @@ pub struct Row {
     pub plan_ssize: u32,
     pub plan_m_wsize: u32,
     pub plan_m_ssize: u32,
+    /// descriptor-level entry points vs the miniscript-level templates of this row:
+    /// [get_satisfaction, get_satisfaction_mall] of the primary wrapper, the same two of the
+    /// secondary wrapper (sh(wsh(..))), [into_plan, into_plan_mall] of the secondary wrapper.
+    /// 0 = neither exists, 1 = both exist and are equal, 2 = differ, 3 = only one exists,
+    /// 4 = the descriptor-level result could not be interpreted
+    pub dcodes: [u8; 6],
 }
 
 /// Static figures the library derives for the shape.
